@@ -520,7 +520,8 @@ class FlatLinearOperator(ScipyLinearOperator):
             return res
         else:
             leg = self.leg
-            ch_leg = npc.LegCharge.from_qflat(leg.chinfo, self.possible_charge_sectors, qconj=-leg.qconj)
+            # one column per block of `leg`, in the order of its blocks (which need not be sorted by charge)
+            ch_leg = npc.LegCharge.from_qflat(leg.chinfo, leg.charges, qconj=-leg.qconj)
             res = npc.zeros([self.leg, ch_leg], vec.dtype, labels=[self.vec_label, 'charge'])
             res._qdata = np.repeat(np.arange(leg.block_number, dtype=np.intp), 2).reshape(leg.block_number, 2)
             for qi in range(leg.block_number):
